@@ -16,7 +16,7 @@ EXPLANATION = ('Decides the necessary structural clauses of C12: (R12a) the date
 TRUSTED_BASE = ['rustc nightly MIR construction and trait resolution', 'time::Date::saturating_sub / Duration::days semantics']
 ASSUMPTIONS = []
 
-MOD = 'fx::io::rate_loader::'
+MOD = 'fx::io::'       # the rate loader and the helper modules beside it (shapes, not paths, select the functions)
 DAILY = 'fx::model::DailyRate'
 
 
@@ -302,7 +302,7 @@ def r12g(prog, rep):
     themselves and pushes each one into the result on every path (a walk over a fixed number of days that merely *looks up*
     observations drops whatever falls outside it - 31 December of a leap year with 365 days)"""
     DR = r'std::vec::Vec<fx::model::DailyRate'
-    cands = [f for f in prog.product_fns() if f.name.startswith('fx::io::rate_loader::') and f.kind == 'Fn' and
+    cands = [f for f in prog.product_fns() if f.name.startswith('fx::io::') and not mir.is_testsupport(f.name) and 'testlib' not in f.name and f.kind == 'Fn' and
              re.search(DR, f.ty.get(0, '')) and any(re.search(r'&(' + DR + r'|\[fx::model::DailyRate\])', f.ty.get(p, '')) for p in range(1, f.argc + 1))]
     if not rep.anchor('padding function of a downloaded year (&Vec<DailyRate>, year) -> Vec<DailyRate>', [f.name for f in cands]):
         return
